@@ -11,6 +11,7 @@ func c08Alphabet() []seqStep {
 		// abandoned after writes
 		t(txProg{Update: true, Ops: []txOp{{Op: "S", K: "k"}, {Op: "D", K: "k!"}, {Op: "G", K: "k"}}, End: "X"}),
 		t(txProg{Update: true, Ops: []txOp{{Op: "D", K: "k"}, {Op: "S", K: "k@1"}}, End: "E"}),
+		t(txProg{Update: true, Ops: []txOp{{Op: "S", K: "k"}, {Op: "D", K: "k@1"}}, End: "P"}), // the closure panics, the caller recovers
 		{Kind: "CF", K: "k"},
 		{Kind: "CF", K: "k!"},
 		{Kind: "M", Name: "set-in-readonly"},
